@@ -333,8 +333,9 @@ def run_case(case: dict[str, Any]) -> Outcome:
         else:
             verdict, ref_out, unused = F.ref_decode(named, wire, limit)
     declared_over = False
-    if named == "zstd" and cap is not None and len(wire) >= 14 and wire[:4] == F.ZSTD_MAGIC and (wire[4] >> 6) == 3 and not (wire[4] & 0x20):
-        declared_over = int.from_bytes(wire[6:14], "little") > cap
+    if named == "zstd" and cap is not None:
+        declared = F.zstd_declared_size(wire)  # what the frame header claims (reference library's header parser)
+        declared_over = declared is not None and declared > cap
 
     allowed: set[Any] = set()
     if wire_over:
